@@ -314,10 +314,13 @@ def evaluate(c, cases, cuts, lines, mlines, mcuts, impl, mod, stats, tag):
             st['model_runs_compared'] += 1
             d = agree(cs, a, b)
             if d:
+                cinfo = {}
                 d2 = rr_conditioned(CTX['drv'], cs, lambda pc: split_line(pc, 'same', mcuts[i]), split_results,
-                                    [p[0] for p in pairs], [p[1] for p in pairs])
+                                    [p[0] for p in pairs], [p[1] for p in pairs], info=cinfo)
                 if d2 is None:
                     st['model_vs_code_ill_conditioned_accepted'] = st.get('model_vs_code_ill_conditioned_accepted', 0) + 1
+                    st['model_vs_code_ill_conditioned_max_amplification'] = max(
+                        st.get('model_vs_code_ill_conditioned_max_amplification', 0.0), cinfo.get('amplification', 0.0))
                 else:
                     c.corr_broken.append({'model': m, 'diff': d, 'conditioned': d2, 'params': cs['params'], 'line': mlines[i][:3000]})
                 break
